@@ -145,6 +145,22 @@ def gen_history(rng, length, force=None):
             # (without an effective date the configured callable supplies it)
             ops.append(["mc_call", "c", rat(Fraction(rng.randint(1, 10 ** 6), 100)), u, t,
                         "-" if rng.random() < .3 else f"{dt[0]}-{dt[1]}-{dt[2]}", mode])
+    # closing: with rates stored for one more period, the converter is called
+    # in every direction (into the base currency, out of it, across it); the
+    # amount must be multiplied by exactly the rate `get_rate` reports for that
+    # direction (an inverted 6-digit rate, not a division by the stored one)
+    y, m, d = rng.choice(dates)
+    ds = f"{y}-{m}-{d}"
+    x, z = rng.sample([t for t in TERMS if t != base], 2)
+    def crate():
+        return "dec:" + rat(Fraction(rng.choice([12, 86, 107, 1625, rng.randint(2, 9999)]),
+                                     rng.choice([10, 100, 1000])))
+    ops.append(["mc_update", "c", spell(rng, kind, y, m, d),
+                f"{x},{crate()},int:1;{z},{crate()},int:{rng.choice([1, 100])}", _money.MODE])
+    for u, t in ((x, base), (base, x), (x, z), (z, base)):
+        ops.append(["mc_rate", "c", u, t, ds, _money.MODE])
+        ops.append(["mc_call", "c", rat(Fraction(rng.randint(1, 10 ** 5), rng.choice([1, 100]))),
+                    u, t, ds, _money.MODE])
     return {"ops": ops, "fork": True, "base": base, "tags": ["history:" + kind]}
 
 
